@@ -3,6 +3,7 @@ package hcore
 import (
 	"context"
 	"fmt"
+	"os"
 
 	"github.com/Comcast/sheens/core"
 	"github.com/Comcast/sheens/interpreters/ecmascript"
@@ -51,7 +52,6 @@ var c10Polluters = []jsProg{
 	// belongs to this execution; so do the helper functions themselves
 	{"helper-failure-edited", `var errs = []; function grab(f) { try { f(); } catch (e) { errs.push(e); } }
 if (_.cronNext) { grab(function() { _.cronNext(7); }); grab(function() { _.cronNext("not a cron expression"); }); }
-if (_.match) { grab(function() { _.match(function() {}, 1, 2); }); grab(function() { _.match({"?x": 1, "?y": 2}, {}, {}); }); }
 for (var i = 0; i < errs.length; i++) { var p = errs[i]; if (p && typeof p == "object") { p.marker = "own"; p = Object.getPrototypeOf(p); while (p) { p.marker = "leaked"; p.toString = function() { return "hijacked"; }; p.message = "hijacked"; p = Object.getPrototypeOf(p); } } }
 if (_.cronNext) { _.cronNext.calls = 1; Object.getPrototypeOf(_.cronNext).fnleak = 1; }
 if (_.match) { _.match.calls = 1; }
@@ -61,7 +61,6 @@ _.out.calls = 1; return {};`},
 var c10Probes = []jsProg{
 	{"helper-failure", `var seen = []; function look(f) { try { f(); seen.push("no failure"); } catch (e) { seen.push(typeof e + ":" + String(e) + ":" + (e && e.marker) + ":" + (e && e.message)); } }
 if (_.cronNext) { look(function() { _.cronNext(7); }); look(function() { _.cronNext("not a cron expression"); }); }
-if (_.match) { look(function() { _.match(function() {}, 1, 2); }); }
 return {seen: seen, calls: [_.cronNext ? _.cronNext.calls : null, _.match ? _.match.calls : null, _.out.calls], fnleak: (function() {}).fnleak === undefined, om: ({}).marker === undefined};`},
 	{"helper-failure-uncaught", `if (_.cronNext) { _.cronNext("not a cron expression"); } return {};`},
 	{"globals", `return {leak: typeof leak, leak2: typeof leak2, leak3: typeof leak3, leak4: typeof leak4};`},
@@ -153,6 +152,7 @@ func c10Run(interp *ecmascript.Interpreter, compiled map[string]interface{}, cs 
 			}
 			if err != nil {
 				obs.Err = true
+				obs.Result = "error: " + err.Error() // what the host is told is an observation too
 			} else {
 				obs.Result = rstep.Canon(M(exe.Bs)) + "|" + rstep.Canon(nz(exe.Emitted))
 			}
@@ -228,6 +228,9 @@ func C10(c *vh.Ctx) {
 			c.Violation("C10/"+d+"/via-"+cs.Via, fmt.Sprintf("sequence %v via %s: %s", cs.Seq, cs.Via, d), cs)
 		}
 		want := base[cs.Via+"/"+cs.Props+"/"+probe]
+		if os.Getenv("VERIF_DEBUG") != "" {
+			os.WriteFile("/tmp/c10dbg.log", []byte(fmt.Sprintf("LAST %+v\nWANT %+v\n", last, want)), 0o644)
+		}
 		if last != want {
 			c.Violation(fmt.Sprintf("C10/later-execution-sees-earlier-one/%s-after-%s/via-%s", probe, cs.Seq[len(cs.Seq)-2], cs.Via),
 				fmt.Sprintf("sequence %v via %s: the last program returned %s (err=%v); run alone it returns %s (err=%v)", cs.Seq, cs.Via, last.Result, last.Err, want.Result, want.Err), cs)
